@@ -123,8 +123,16 @@ var decTypeOf = map[string]string{"int": "TN", "int64": "TN", "string": "TStr", 
 // the call with normalised arguments (their bodies are tracked functions of their own)
 var decPredicates = map[string]bool{"hookHasDeletePolicy": true, "hookHasOutputLogPolicy": true}
 
-// pure functions that stay part of the access path
-var decPathFuncs = map[string]bool{"ToLower": true, "TrimSpace": true}
+// functions of package strings that the interpreter knows
+var decStrFuncs = map[string]string{"ToLower": "Lower", "TrimSpace": "Trim"}
+var decPathFuncs = map[string]bool{}
+
+func selX(e ast.Expr) ast.Expr {
+	if se, ok := e.(*ast.SelectorExpr); ok {
+		return se.X
+	}
+	return nil
+}
 
 // in-place reorderings: callee (last name) -> wrapper of the path of the first argument
 var decSorters = map[string]string{"SortByRevision": "sorted"}
@@ -215,7 +223,7 @@ func (d *dx) coq() string {
 		return "(DStr " + q(d.s) + ")"
 	case "Bool":
 		return "(DBool " + d.s + ")"
-	case "Not", "IsPending":
+	case "Not", "IsPending", "Lower", "Trim":
 		return "(D" + d.op + " " + d.a[0].coq() + ")"
 	case "In":
 		it := make([]string, len(d.a)-1)
@@ -245,7 +253,7 @@ func (d *dx) typeOf() string {
 		return "TP"
 	case "Int", "Add", "Sub":
 		return "TN"
-	case "Str":
+	case "Str", "Lower", "Trim":
 		return "TStr"
 	case "Unknown":
 		return ""
@@ -299,6 +307,7 @@ type decFn struct {
 	retPaths []string // inlined helper: what it returns
 	results  *ast.FieldList
 	anyN     map[string]int
+	freshN   map[string]int
 }
 
 func (f *decFn) text(n ast.Node) string {
@@ -492,13 +501,6 @@ func (f *decFn) path(e ast.Expr) (string, bool) {
 	case *ast.CallExpr:
 		name := f.calleeName(v.Fun)
 		if name == "" {
-			return "", false
-		}
-		last := name[strings.LastIndex(name, ".")+1:]
-		if decPathFuncs[last] && len(v.Args) == 1 {
-			if p, ok := f.path(v.Args[0]); ok {
-				return last + "(" + p + ")", true
-			}
 			return "", false
 		}
 		// FilterFunc(f).Filter(x): the filtered list
@@ -784,10 +786,15 @@ func (f *decFn) tr0(e ast.Expr) *dx {
 			}
 			return &dx{op: "Var", ty: "TB", s: last + "(" + strings.Join(args, ",") + ")"}
 		}
-		if decPathFuncs[last] {
-			if p, ok := f.path(e); ok {
-				return &dx{op: "Var", s: p, ty: "TStr"}
+		if op, ok := decStrFuncs[last]; ok && len(v.Args) == 1 && f.isPkg(selX(v.Fun), "strings") {
+			a := f.tr(v.Args[0])
+			if a.op == "Var" && a.ty == "" {
+				a.ty = "TStr"
 			}
+			if a.typeOf() == "TStr" {
+				return &dx{op: op, a: []*dx{a}}
+			}
+			return dUnknown(f.text(e))
 		}
 		if d := f.searchCall(v); d != nil {
 			return d
@@ -1161,7 +1168,7 @@ func (f *decFn) bindCallResults(lhs []ast.Expr, call *ast.CallExpr, resultPath s
 func (f *decFn) isExprCall(c *ast.CallExpr) bool {
 	name := f.calleeName(c.Fun)
 	last := name[strings.LastIndex(name, ".")+1:]
-	if name == "len" || decPathFuncs[last] {
+	if _, isStr := decStrFuncs[last]; name == "len" || isStr {
 		return true
 	}
 	if se, ok := c.Fun.(*ast.SelectorExpr); ok {
@@ -1288,8 +1295,14 @@ func (f *decFn) assign(lhs, rhs []ast.Expr, pc []*dx, pos token.Pos) {
 		}
 		if fresh {
 			delete(f.env, id.Name)
-			f.unstable[id.Name] = true // a fresh object: known by its own name
 			f.noteValue(id.Name, nil, pc)
+			if nm := f.freshName(rhs[i]); nm != "" {
+				// a fresh object: named by its type, so that renaming the local does not matter
+				delete(f.unstable, id.Name)
+				f.env[id.Name] = &decBinding{path: nm}
+			} else {
+				f.unstable[id.Name] = true // known by its own name
+			}
 			continue
 		}
 		d := f.tr(rhs[i])
@@ -1317,6 +1330,56 @@ func (f *decFn) assign(lhs, rhs []ast.Expr, pc []*dx, pos token.Pos) {
 			f.env[id.Name] = &decBinding{exp: d}
 		}
 	}
+}
+
+// typeText: a type without pointers and package qualifiers ([]*release.Hook -> []Hook)
+func typeText(e ast.Expr) string {
+	switch v := e.(type) {
+	case *ast.Ident:
+		return v.Name
+	case *ast.StarExpr:
+		return typeText(v.X)
+	case *ast.SelectorExpr:
+		return v.Sel.Name
+	case *ast.ArrayType:
+		return "[]" + typeText(v.Elt)
+	case *ast.MapType:
+		return "map[" + typeText(v.Key) + "]" + typeText(v.Value)
+	case *ast.InterfaceType:
+		return "interface"
+	}
+	return ""
+}
+
+func (f *decFn) freshFor(ty string) string {
+	f.freshN[ty]++
+	if n := f.freshN[ty]; n > 1 {
+		return fmt.Sprintf("new(%s)#%d", ty, n)
+	}
+	return "new(" + ty + ")"
+}
+
+// freshName: the name of a freshly made collection / object ("" = keep the local's name)
+func (f *decFn) freshName(e ast.Expr) string {
+	ty := ""
+	switch v := e.(type) {
+	case *ast.CompositeLit:
+		if v.Type != nil {
+			ty = typeText(v.Type)
+		}
+	case *ast.UnaryExpr:
+		if cl, ok := v.X.(*ast.CompositeLit); ok && cl.Type != nil {
+			ty = typeText(cl.Type)
+		}
+	case *ast.CallExpr:
+		if len(v.Args) >= 1 {
+			ty = typeText(v.Args[0])
+		}
+	}
+	if ty == "" {
+		return ""
+	}
+	return f.freshFor(ty)
 }
 
 // ---- searches ------------------------------------------------------------------------------
@@ -1563,7 +1626,7 @@ func (f *decFn) helper(c *ast.CallExpr) *ast.FuncDecl {
 func (f *decFn) child(fd *ast.FuncDecl, c *ast.CallExpr) *decFn {
 	ch := &decFn{fset: f.pkg.fset, consts: f.consts, pkg: f.pkg, env: map[string]*decBinding{}, unstable: decUnstable(fd.Body),
 		vs: map[string]*decValSet{}, boolZero: map[string]bool{}, items: f.items, prefix: f.prefix, inline: f.inline + 1,
-		noRet: true, results: fd.Type.Results, anyN: f.anyN}
+		noRet: true, results: fd.Type.Results, anyN: f.anyN, freshN: f.freshN}
 	if fd.Recv != nil && len(fd.Recv.List[0].Names) == 1 {
 		ch.recv = fd.Recv.List[0].Names[0].Name
 		ch.recvType = lastTypeName(fd.Recv.List[0].Type)
@@ -1911,6 +1974,18 @@ func (f *decFn) stmt(st ast.Stmt, pc []*dx) ([]*dx, bool) {
 					case "int", "int64":
 						zero = &dx{op: "Int", n: 0}
 					}
+					if zero == nil {
+						if _, isArr := vs.Type.(*ast.ArrayType); isArr {
+							delete(f.unstable, n.Name)
+							f.env[n.Name] = &decBinding{path: f.freshFor(typeText(vs.Type))}
+							continue
+						}
+						if _, isMap := vs.Type.(*ast.MapType); isMap {
+							delete(f.unstable, n.Name)
+							f.env[n.Name] = &decBinding{path: f.freshFor(typeText(vs.Type))}
+							continue
+						}
+					}
 					if f.unstable[n.Name] {
 						f.noteValue(n.Name, zero, pc)
 					} else if zero != nil {
@@ -2248,11 +2323,18 @@ func genActionDecisions(repo string) (string, error) {
 		for _, key := range tf.Funcs {
 			fd := pkg.funcs[key]
 			if fd == nil {
-				return "", fmt.Errorf("%s: function %s not found", tf.File, key)
+				// the table is always emitted: a tracked function that is gone is an explicit row
+				if !first {
+					b.WriteString(";\n    ")
+				}
+				first = false
+				fmt.Fprintf(&b, "(%s, (* %s: NO SUCH FUNCTION any more *)\n      [ (\"<function missing>\", (DUnknown %s)) ])", hx.CoqStr(key), tf.File,
+					hx.CoqStr("tracked function "+key+" not found in "+tf.File))
+				continue
 			}
 			var items []*decItem
 			f := &decFn{fset: pkg.fset, consts: consts, pkg: pkg, env: map[string]*decBinding{}, unstable: decUnstable(fd.Body),
-				vs: map[string]*decValSet{}, boolZero: map[string]bool{}, items: &items, results: fd.Type.Results, anyN: map[string]int{}}
+				vs: map[string]*decValSet{}, boolZero: map[string]bool{}, items: &items, results: fd.Type.Results, anyN: map[string]int{}, freshN: map[string]int{}}
 			if fd.Recv != nil && len(fd.Recv.List[0].Names) == 1 {
 				f.recv = fd.Recv.List[0].Names[0].Name
 				f.recvType = lastTypeName(fd.Recv.List[0].Type)
